@@ -1,6 +1,6 @@
 SPECIFICATION Spec
 CONSTANTS
-  Alphabet <- AlphaStep
+  AlphaName = "step"
   MaxLen = 0
   History = FALSE
 VIEW View
